@@ -270,10 +270,13 @@ def fam_threads(E, real=False, max_switches=10):
 FAMILIES = [
     Family('sequence', fam_sequence,
            quick=dict(nruns=2, kinds=[SUCCESS, RAISES, RETURNS, NESTED, WAITERS, TILL]),
-           thorough=dict(nruns=3, kinds=[SUCCESS, RAISES, RETURNS, NESTED, TILL], _max_paths=1500000,
-                         _max_wall=1500),
+           thorough=dict(nruns=2, kinds=[SUCCESS, RAISES, RETURNS, NESTED, WAITERS, TILL]),
            reach=['raises', 'returns-value', 'nested', 'quiescent-with-waiters', 'till'],
            bounds='2 (thorough 3) runs in sequence'),
+    Family('sequence3', fam_sequence,
+           thorough=dict(nruns=3, kinds=[SUCCESS, RAISES, NESTED, TILL], _max_paths=900000,
+                         _max_wall=1200),
+           reach=['raises', 'nested', 'till'], bounds='3 runs in sequence, 4 kinds'),
     Family('sequence_real', fam_sequence,
            thorough=dict(nruns=2, kinds=[SUCCESS, RAISES, NESTED], real=True),
            bounds='exact rational dates'),
